@@ -394,7 +394,7 @@ def run_modifiers(ctx, n):
     for it in range(n):
         tname = rng.choice(list(PATS)); P, pts = PATS[tname]; pt = rng.choice(pts)
         c = rng.choice(cults); M = rng.choice([0, 99, 30, 29, 31, 50, 80, rng.randint(0, 99)])
-        tY = rng.choice([2000, 1999, 2100, 1950, 2345, 1900, rng.randint(1801, 2900)])
+        tY = rng.choice([2000, 1999, 2100, 1950, 2345, 1900, rng.randint(1801, 2900), 150, 101, 199, 100, 200, 299, rng.randint(100, 400)])   # (templates before year 100 mix year-of-era and absolute year for yy=00: left out)
         tv_date = LocalDate(tY, rng.randint(1, 12), rng.randint(1, 28))
         tv = tv_date if tname == "LocalDate" else (tv_date.at_midnight() if tname == "LocalDateTime" else tv_date.at_midnight().with_offset(Offset.zero).to_instant())
         mods = [("culture", lambda p: p.with_culture(c)), ("two_digit_year_max", lambda p: p.with_two_digit_year_max(M)), ("template", lambda p: p.with_template_value(tv))]
